@@ -221,7 +221,7 @@ PROPS = {
             "modelled, not verified: rusty_bit_vec/src/lib.rs (From<i32>, bits_to_i32, BitAnd, BitOr), rusty_variant/src/bits.rs (qb_and, qb_or, i32_to_bytes, bytes_to_i32, f64_to_bytes, bytes_to_f64, msb_bits_to_byte, lsb_bytes_to_msb_bits), Variant::unary_not on VInteger, PeekByte/PokeByte for VInteger",
         ],
         "assumptions": [
-            "model = code is checked exhaustively for all 65536 INTEGERs (unary functions, both byte conversions) and on the generated AND/OR pairs and doubles only",
+            "model = code is checked exhaustively for all 65536 INTEGERs (unary functions, both byte conversions, PEEK of both bytes through running programs) and on the generated AND/OR pairs, POKE triples and doubles only",
             "INTEGER values reaching these functions are in -32768..32767 (C06 covers how values get there)",
         ],
     },
